@@ -147,47 +147,73 @@ def pass_managers():
     return _PM
 
 
+class Crash:
+    """An in-domain call of a pass that raised: recorded as the pass's output (a one-element
+    canonical list holding a crash marker), never allowed to take the generator down."""
+    def __init__(self, e):
+        self.msg = f"{type(e).__name__}: {str(e)[:120]}".replace("|", "/")
+
+
+def guard(f):
+    try:
+        return f()
+    except Exception as e:  # noqa: BLE001
+        return Crash(e)
+
+
+def crash_canon(c):
+    return [dict(op=["crash", c.msg], qs=[], cs=[])]
+
+
+def is_crash(canon):
+    return any(d["op"][0] == "crash" for d in canon)
+
+
 LISTFN = {"consolidate": _consolidate_resets, "zero": _remove_resets_in_zero_state, "final": _remove_final_resets}
 
 
 def run_extra(qc, ctx_canon):
-    """inplace=False and call-twice forms; returns ({name: circuit}, input_untouched: bool)."""
+    """inplace=False and call-twice forms; returns ({name: circuit | Crash}, input_untouched: bool)."""
     out = {}
     untouched = True
     before = ctx_canon(qc)
     for b, f in LISTFN.items():
         a = qc.copy()
-        r = f(a, inplace=False)
-        untouched = untouched and (r is not a) and ctx_canon(a) == before
+        r = guard(lambda: f(a, inplace=False))
+        if not isinstance(r, Crash):
+            untouched = untouched and (r is not a) and ctx_canon(a) == before
         out[b + "_copy"] = r
-        a = qc.copy()
-        f(a)
-        f(a)
-        out[b + "_twice"] = a
+
+        def twice(f=f):
+            a2 = qc.copy()
+            f(a2)
+            f(a2)
+            return a2
+        out[b + "_twice"] = guard(twice)
     return out, untouched
 
 
 def run_passes(qc, size_fixed_point=False):
-    """Apply every pass to a fresh copy; returns {pass: QuantumCircuit}."""
+    """Apply every pass to a fresh copy; returns {pass: QuantumCircuit | Crash}."""
     out = {}
-    a = qc.copy()
-    _consolidate_resets(a)
-    out["consolidate"] = a
-    a = qc.copy()
-    _remove_resets_in_zero_state(a)
-    out["zero"] = a
-    a = qc.copy()
-    _remove_final_resets(a)
-    out["final"] = a
-    a = qc.copy()  # the order used by generate_cutting_experiments
-    _remove_resets_in_zero_state(a)
-    _remove_final_resets(a)
-    _consolidate_resets(a)
-    out["pipeline"] = a
+
+    def inplace(*fs):
+        def run():
+            a = qc.copy()
+            for f in fs:
+                f(a)
+            return a
+        return guard(run)
+
+    out["consolidate"] = inplace(_consolidate_resets)
+    out["zero"] = inplace(_remove_resets_in_zero_state)
+    out["final"] = inplace(_remove_final_resets)
+    # the order used by generate_cutting_experiments
+    out["pipeline"] = inplace(_remove_resets_in_zero_state, _remove_final_resets, _consolidate_resets)
     pms = pass_managers()
     for k in ("dag_rfr", "dag_rfr_fix", "dag_consolidate"):
         pm = pms["dag_rfr_fix_size"] if (k == "dag_rfr_fix" and size_fixed_point) else pms[k]
-        out[k] = pm.run(qc)
+        out[k] = guard(lambda pm=pm: pm.run(qc))
     return out
 
 
@@ -197,6 +223,8 @@ def run_passes(qc, size_fixed_point=False):
 
 def lit_instr(d):
     op, qs, cs = d["op"], d["qs"], d["cs"]
+    if op[0] == "crash":
+        return "CRASHED"
     if op[0] == "reset" and len(qs) == 1 and not cs:
         return f"R {qs[0]}"
     if op[0] == "measure" and len(qs) == 1 and len(cs) == 1:
@@ -223,6 +251,9 @@ def canon_all(qc, outs, names=None):
     regs_ok = True
     for k in (names or PASSES):
         o = outs[k]
+        if isinstance(o, Crash):
+            couts[k] = crash_canon(o)
+            continue
         if o.num_qubits != qc.num_qubits or o.num_clbits != qc.num_clbits:
             bits_changed.append(k)
         elif circuit_registers(o) != regs_in:
@@ -234,6 +265,8 @@ def canon_all(qc, outs, names=None):
 def tok(d):
     """Compact JSON form of a canonical instruction: 'name|params|qubits|clbits'."""
     op = d["op"]
+    if op[0] == "crash":
+        return "CRASH|" + op[1] + "||"
     if op[0] == "gate":
         name, params = op[2], op[3]
     elif op[0] in ("reset", "measure", "barrier"):
@@ -246,6 +279,8 @@ def tok(d):
 
 def untok(t):
     name, ps, qs, cs = t.split("|")
+    if name == "CRASH":
+        return dict(op=["crash", ps], qs=[], cs=[])
     params = [float(p) for p in ps.split(",")] if ps else []
     qs = [int(q) for q in qs.split(",")] if qs else []
     cs = [int(c) for c in cs.split(",")] if cs else []
@@ -357,7 +392,7 @@ def features(w, stream, cin, couts):
     w.count(stream + ".len", len(cin))
     w.count(stream + ".resets", nres)
     for k in PASSES:
-        w.count(stream + ".removed." + k, len(cin) - len(couts[k]))
+        w.count(stream + ".removed." + k, "crashed" if is_crash(couts[k]) else len(cin) - len(couts[k]))
 
 
 def judged(w, case):
@@ -471,7 +506,11 @@ def e2e_generate(subcircuits, subobservables, record=None, disable=False):
                 def wrapped(c, *a, _n=n, **k):
                     ctx = CircCtx()
                     before = ctx.canon_circuit(c)
-                    r = orig[_n](c, *a, **k)
+                    try:
+                        r = orig[_n](c, *a, **k)
+                    except Exception as e:  # noqa: BLE001
+                        record.append((_n, c, before, crash_canon(Crash(e))))
+                        raise
                     record.append((_n, c, before, ctx.canon_circuit(c)))
                     return r
                 setattr(_ce, n, wrapped)
@@ -500,12 +539,11 @@ def e2e_stream(w, rng, n_problems, max_sub):
         record = []
         ro = call_canon(e2e_generate, pp.subcircuits, pp.subobservables, record)
         ru = call_canon(e2e_generate, pp.subcircuits, pp.subobservables, None, True)
-        if ro[0] != "ok" or ru[0] != "ok":
-            w.count("e2e.problem", "generate-" + ro[0])
+        if ru[0] != "ok":
+            w.count("e2e.problem", "generate-unoptimised-" + ru[0])
             continue
-        w.count("e2e.problem", tag)
-        subs, subs0 = ro[1][0], ru[1][0]
-        # (a) every recorded call against the model of that pass
+        w.count("e2e.problem", tag if ro[0] == "ok" else tag + "-generate-" + ro[0])
+        # (a) every recorded call against the model of that pass (a call that raised is recorded with a crash marker)
         by_obj = {}
         for n, c, before, after in record:
             by_obj.setdefault(id(c), []).append(n)
@@ -515,6 +553,12 @@ def e2e_stream(w, rng, n_problems, max_sub):
             judged(w, case)
             w.add("e2e." + k, CHECKER[k], (c.num_qubits, c.num_clbits, lit_circ(before), lit_circ(after)), case,
                   nontrivial=len(before) != len(after))
+        if ro[0] != "ok":
+            # the unoptimised generation succeeds, the real one raised: a reset pass (recorded above) or something
+            # else went wrong; without subexperiments there is nothing to compare in (b)
+            w.contract("e2e_generation_succeeds_when_unoptimised_does", any(is_crash(r[3]) for r in record))
+            continue
+        subs, subs0 = ro[1][0], ru[1][0]
         # (b) every subexperiment as a whole against the unoptimised one
         for label in subs:
             groups = ObservableCollection(pp.subobservables[label]).groups
@@ -909,6 +953,8 @@ def clbit_law(nq, nc, c, keep):
 def judge_e2e(case):
     nq, nc = case["nq"], case["nc"]
     cin = [untok(t) for t in case["cin"]]
+    if any(t.startswith("CRASH|") for t in case["impl"]["e2e"]):
+        return "e2e: the call raised: " + case["impl"]["e2e"][0].split("|")[1]
     cout = [untok(t) for t in case["impl"]["e2e"]]
     if not only_resets_deleted(cin, cout):
         return "e2e: the subexperiment is not the unoptimised one with only resets deleted"
@@ -933,6 +979,10 @@ def judge(case):
         names = [case["only"]] if case.get("only") else [k for k in PASSES + EXTRA if k in case["impl"]]
         problems = []
         for name in names:
+            if any(t.startswith("CRASH|") for t in case["impl"][name]):
+                problems.append(f"{name}: the call raised on an input inside the property's domain: "
+                                + case["impl"][name][0].split("|")[1])
+                continue
             if name in case.get("bits_changed", []):
                 problems.append(f"{name}: the output circuit no longer has {nq} qubits / {nc} clbits")
                 continue
@@ -941,7 +991,8 @@ def judge(case):
                 problems.append(p)
         # "the two equivalent transpiler passes": same sequence on every wire as the function-level pass
         for dag, lst in (("dag_rfr_fix", "final"), ("dag_consolidate", "consolidate")):
-            if dag in names and lst in case["impl"] and dag not in case.get("bits_changed", []):
+            if (dag in names and lst in case["impl"] and dag not in case.get("bits_changed", [])
+                    and not any(t.startswith("CRASH|") for t in case["impl"][dag] + case["impl"][lst])):
                 if not same_per_wire(nq, nc, [untok(t) for t in case["impl"][dag]], [untok(t) for t in case["impl"][lst]]):
                     problems.append(f"{dag}: not equivalent to the list pass '{lst}' (some wire sees a different instruction sequence)")
     except OutsideDomain as e:
@@ -959,20 +1010,28 @@ def rerun(case):
     if case.get("kind") == "e2e" or case.get("origin"):
         # subexperiment-shaped input: re-run the recorded pass / the call sites of generate_cutting_experiments on it
         qc = build(case["nq"], case["nc"], prog)
+        def canon_or_crash(r):
+            return [tok(d) for d in (crash_canon(r) if isinstance(r, Crash) else CircCtx().canon_circuit(r))]
+
         if case.get("kind") == "e2e":
-            a = qc.copy()
-            if case["placeholder"]:
-                last = a.data.pop()
-                _ce._remove_final_resets(a)
-                a.data.append(last)
-            for n in E2E_FNS:
-                getattr(_ce, n)(a)
-            case["impl"] = {"e2e": [tok(d) for d in CircCtx().canon_circuit(a)]}
+            def sites():
+                a = qc.copy()
+                if case["placeholder"]:
+                    last = a.data.pop()
+                    _ce._remove_final_resets(a)
+                    a.data.append(last)
+                for n in E2E_FNS:
+                    getattr(_ce, n)(a)
+                return a
+            case["impl"] = {"e2e": canon_or_crash(guard(sites))}
         else:
             k = case["only"]
-            a = qc.copy()
-            LISTFN[k](a)
-            case["impl"] = {k: [tok(d) for d in CircCtx().canon_circuit(a)]}
+
+            def one():
+                a = qc.copy()
+                LISTFN[k](a)
+                return a
+            case["impl"] = {k: canon_or_crash(guard(one))}
         return case
     qc = build(case["nq"], case["nc"], prog, case.get("qlayout"), case.get("clayout"))
     outs = run_passes(qc, size_fixed_point=bool(case.get("size_fixed_point")))
